@@ -775,6 +775,8 @@ def truth(a):
         return const(len(a[1]) > 0)
     if tag(a) in ('obj', 'cls', 'func', 'bound', 'enum', 'ext'):
         return TRUE
+    if tag(a) == 'sym' and (sym_meta(a, 'callable') or sym_meta(a, 'cls')):
+        return TRUE
     n = length_of(a)
     if n is not None and t in ('bytes', 'str'):
         return const(n > 0)
